@@ -31,7 +31,13 @@ ASSUMPTIONS = [
     "alphabet: ASCII digits, blank and tab as padding, printable ASCII and selected non-ASCII letters in "
     "payloads; other Unicode white space / digits (accepted by the shipped \\s, \\d) are not generated",
     "E payloads with an inner tab and the empty word are the unspecified zone: not asserted either way",
+    "a lane index written with leading zeros ('N 07 0') is unspecified (acceptance not asserted either way); "
+    "the star-power kind is the literal '2' of the property, so 'S 02 ...' is a line of another shape",
 ]
+
+
+import re as _re
+_ZERO_PREFIXED_LANE = _re.compile(r"^[ \t]*[0-9]+ = N 0+[0-7] [0-9]+[ \t]*$")
 
 
 def _accepts(kind_cls, line):
@@ -53,7 +59,11 @@ def check_string(ctx: Ctx, line: str, count: bool = True) -> tuple[bool, bool]:
         ctx.fail("note-recogniser-error", f"N recogniser on {line!r} raised {type(e).__name__}: {e}", line)
         d = None
     if ref is None:
-        if d is not None:
+        if d is not None and _ZERO_PREFIXED_LANE.match(line):
+            # '<0..7>' written with leading zeros ('N 07 0'): the property names the lanes as numbers, so
+            # whether such a spelling is a lane line is not asserted either way (the literal 'S 2' is)
+            ctx.classes["unspecified_N_zero_prefixed_index"] += 1
+        elif d is not None:
             ctx.fail("note-overaccepts", f"{line!r} is not an N line but was decoded as {d!r}", line)
     else:
         member = True
@@ -111,7 +121,7 @@ N_SLOTS = [
     [" = ", "=", " =", "  = "],                              # separator
     ["N", "S", "E", "n"],                                    # kind letter
     [" ", "", "  "],
-    ["0", "2", "4", "5", "6", "7", "8", "64", "-1", ""],     # index
+    ["0", "2", "4", "5", "6", "7", "8", "64", "-1", "", "02", "002", "07"],     # index
     [" ", "", "  "],
     ["0", "96", "007", "", "-5", "1.0"],                     # length
     ["", " ", "\t", "x"],                                    # right pad
